@@ -11,6 +11,7 @@ import (
 	"fmt"
 	"math"
 	"os"
+	"path/filepath"
 	"runtime"
 	"strconv"
 	"time"
@@ -172,9 +173,11 @@ func IteInt(c bool, a, b int64) int64 {
 // MapOrderAll asks the engine to explore every iteration order of Go maps.
 func MapOrderAll(on bool) {}
 
-func ObserveInt(label string, v int64)     { Observed = append(Observed, fmt.Sprintf("%s=%d", label, v)) }
-func ObserveBool(label string, v bool)     { Observed = append(Observed, fmt.Sprintf("%s=%v", label, v)) }
-func ObserveString(label string, v string) { Observed = append(Observed, fmt.Sprintf("%s=%q", label, v)) }
+func ObserveInt(label string, v int64) { Observed = append(Observed, fmt.Sprintf("%s=%d", label, v)) }
+func ObserveBool(label string, v bool) { Observed = append(Observed, fmt.Sprintf("%s=%v", label, v)) }
+func ObserveString(label string, v string) {
+	Observed = append(Observed, fmt.Sprintf("%s=%q", label, v))
+}
 
 // Symbolic reports whether the harness runs under the engine.
 func Symbolic() bool { return false }
@@ -373,6 +376,28 @@ func RunWithDeadline(label string, steps int, d time.Duration, f func()) {
 		Assert(false, label)
 	}
 }
+
+// TempDirWithFiles creates a directory holding the given files (name ->
+// content) and returns its path. Natively it is a real temporary directory; in
+// the engine the files live in memory and os.ReadFile of a path inside the
+// returned directory is served from them.
+func TempDirWithFiles(files map[string]string) string {
+	dir, err := os.MkdirTemp("", "verifvfs")
+	if err != nil {
+		panic(err)
+	}
+	for name, content := range files {
+		full := filepath.Join(dir, name)
+		os.MkdirAll(filepath.Dir(full), 0o755)
+		if err := os.WriteFile(full, []byte(content), 0o644); err != nil {
+			panic(err)
+		}
+	}
+	return dir
+}
+
+// RemoveTempDir removes a directory made by TempDirWithFiles (native only).
+func RemoveTempDir(dir string) { os.RemoveAll(dir) }
 
 // RaceDetect turns on the engine's happens-before race detector for the rest
 // of the path: two conflicting accesses to an interpreted heap cell or Go map
